@@ -66,7 +66,7 @@ def make_scratch(src, flavour, prop):
         sys.exit(2)
     shutil.copytree(os.path.join(VERIF, "overlay", "zzverif"), os.path.join(tree, "zzverif"))
     with open(os.path.join(tree, "go.mod"), "a") as f:
-        f.write("\nrequire pgregory.net/rapid v1.3.0\n")
+        f.write("\nrequire pgregory.net/rapid v1.3.0\nrequire github.com/anishathalye/porcupine v1.3.0\n")
     summary = None
     if flavour == "instr":
         rw = ensure_rewriter()
@@ -235,6 +235,7 @@ def main():
         tcfgs.append((part["name"], part["run"], tc))
     if cfg["flavour"] == "instr":
         tcfgs.insert(0, ("regress", "^TestRegress$", {"shards": 1, "checks": 1, "timeout": 300}))
+        tcfgs.insert(0, ("selftest", "^TestSelf", {"shards": 1, "checks": 300, "timeout": 300}))
     try:
         verif_seed = int(os.environ.get("VERIF_SEED", "1"))
     except ValueError:
@@ -272,7 +273,9 @@ def main():
             rp = os.path.join(r["dir"], "replay.json")
             if r["rc"] == 0:
                 continue
-            if r["rc"] == 1 and os.path.exists(rp):
+            if r["part"] == "selftest":
+                infra.append(i)
+            elif r["rc"] == 1 and os.path.exists(rp):
                 violations.append((i, rp))
             else:
                 infra.append(i)
